@@ -147,6 +147,10 @@ def openDir (st : Stack) (m : Mode) (k : DirKeys) (ver : Nat) (who : String) (st
   for (i, r) in prot do
     let epoch := match st with | .tlcp => 0 | .dtlcp => 1
     if r.p.ver != ver then throw ("record-header", s!"{who} record {i} after CCS carries version {r.p.ver}")
+    -- the per-record explicit IV / nonce must never repeat under one key, whatever else is wrong
+    let ex := explicitPart m r.p.body
+    if seen.contains ex then
+      throw ("nonce-reuse", s!"{who} record {i}: explicit IV/nonce {hex ex} used twice under one key (first by record {seen.length - 1 - (seen.idxOf ex)})")
     if st == .dtlcp && (r.p.epoch != 1 || r.p.seq != i) then
       throw ("seq-state", s!"{who} record {i} after CCS carries epoch {r.p.epoch} seq {r.p.seq}, expected 1/{i}")
     match openBody sm m k st r.p.typ r.p.ver epoch i r.p.body with
@@ -156,8 +160,6 @@ def openDir (st : Stack) (m : Mode) (k : DirKeys) (ver : Nat) (who : String) (st
       | .error (t, why) => throw (if t == "record-open" then t else "record-open", s!"{who} {why}")
       | .ok _ => throw ("record-open", s!"{who} record {i}: {e}")
     | .ok content =>
-      let ex := explicitPart m r.p.body
-      if seen.contains ex then throw ("nonce-reuse", s!"{who} explicit IV/nonce {hex ex} used twice under one key")
       seen := ex :: seen
       -- byte-exactness against the standard's sealing with the same explicit part
       if sealRecord sm m k st r.p.typ r.p.ver epoch i ex content != r.raw then
@@ -189,6 +191,9 @@ def explainKeys (st : Stack) (sp : SuiteParams) (master crnd srnd : Bytes) (r : 
     let kbLabel := cut sp (prf sm master labelMaster (srnd ++ crnd) (keyBlockLen sp))
     let own := writeKeys kb r
     let other := writeKeys kb (peer r)
+    -- only when the FIRST protected record itself does not open under the direction's own keys
+    -- (otherwise the keys are right and the failure lies with a later record)
+    if (match openBody sm sp.mode own st w.p.typ w.p.ver epoch i w.p.body with | .ok _ => true | .error _ => false) then "" else
     let alts : List (String × DirKeys) :=
       [("it opens under the PEER's write keys: client and server keys are exchanged", other),
        ("it opens when the key block is expanded with seed client_random+server_random", writeKeys kbSeed r),
@@ -224,16 +229,29 @@ structure Derived where
   /-- client write keys and the client's protected records with their expected sequence numbers -/
   ckeys : DirKeys
   cprot : List (Nat × WireRec)
+  /-- the same for the server -/
+  skeys : DirKeys
+  sprot : List (Nat × WireRec)
   resumed : Bool
   cfinSpec : Bytes
   sfinSpec : Bytes
   cfinModel : Bytes
   sfinModel : Bytes
 
-/-- the whole check; `.error` is a property failure -/
-def check (mst : MStack) (st : Stack) (suiteId : Nat) (master smaster pre c2s s2c sentc sents crng srng : Bytes)
-    (obsC obsS : Option Bytes) : Except Fail (Derived × Option Fail) := do
-  let S := Model.KeySchedule.srcOf mst
+/-- what both directions of a capture say before any record is opened: the plaintext handshake
+messages, the protected records with their expected sequence numbers, randoms, suite, key block -/
+structure Basis where
+  sp : SuiteParams
+  kb : KeyBlock
+  cv : DirView
+  sv : DirView
+  cplain : List Msg
+  splain : List Msg
+  ch : Msg
+  chello : Hello
+  shello : Hello
+
+def basis (st : Stack) (suiteId : Nat) (master smaster pre c2s s2c : Bytes) : Except Fail Basis := do
   let cr ← splitRecords st (c2s.length + 1) c2s []
   let sr ← splitRecords st (s2c.length + 1) s2c []
   let cv ← viewDir st cr
@@ -265,6 +283,13 @@ def check (mst : MStack) (st : Stack) (suiteId : Nat) (master smaster pre c2s s2
     match specMaster pre chello.random shello.random master with
     | some f => throw f
     | none => pure ()
+  pure ⟨sp, keyBlock sm sp master chello.random shello.random, cv, sv, cplain, splain, ch, chello, shello⟩
+
+/-- the whole check; `.error` is a property failure -/
+def check (mst : MStack) (st : Stack) (suiteId : Nat) (master smaster pre c2s s2c sentc sents crng srng : Bytes)
+    (obsC obsS : Option Bytes) (appPrefix : Bool := false) : Except Fail (Derived × Option Fail) := do
+  let S := Model.KeySchedule.srcOf mst
+  let ⟨sp, _, cv, sv, cplain, splain, ch, chello, shello⟩ ← basis st suiteId master smaster pre c2s s2c
   let kb := keyBlock sm sp master chello.random shello.random
   let resumed := splain.length == 1
   let startC := cv.plain.length        -- next message_seq of each side (DTLCP)
@@ -309,8 +334,11 @@ def check (mst : MStack) (st : Stack) (suiteId : Nat) (master smaster pre c2s s2
     if c != cfinSpec || s != sfinSpec then throw ("finished", "verify_data stored by the connection differs from the standard's")
   | _, _ => pure ()
   -- application data of each direction is exactly what was written
-  if co.app != sentc then throw ("appdata", s!"client->server records carry {co.app.length} bytes, {sentc.length} were written (first difference at {firstDiff co.app sentc})")
-  if so.app != sents then throw ("appdata", s!"server->client records carry {so.app.length} bytes, {sents.length} were written (first difference at {firstDiff so.app sents})")
+  -- (`appPrefix`: a write was cut short by a transport fault — the records carry a prefix of what the
+  -- application handed over)
+  let sameApp (got want : Bytes) : Bool := if appPrefix then got.isPrefixOf want else got == want
+  if !sameApp co.app sentc then throw ("appdata", s!"client->server records carry {co.app.length} bytes, {sentc.length} were written (first difference at {firstDiff co.app sentc})")
+  if !sameApp so.app sents then throw ("appdata", s!"server->client records carry {so.app.length} bytes, {sents.length} were written (first difference at {firstDiff so.app sents})")
   -- DTLCP numbers handshake messages consecutively per sender (RFC 6347 4.2.2); the Finished
   -- messages continue the numbering of the flights sent in the clear
   let soft : Option Fail :=
@@ -319,7 +347,7 @@ def check (mst : MStack) (st : Stack) (suiteId : Nat) (master smaster pre c2s s2
     else if st == .dtlcp && sfinMsg.mseq != startS then
       some ("msgseq", s!"server Finished carries message_seq {sfinMsg.mseq}; its {startS} earlier messages were numbered 0..{startS - 1}")
     else none
-  pure (⟨sp, writeKeys kb .client, cv.prot, resumed, cfinSpec, sfinSpec,
+  pure (⟨sp, writeKeys kb .client, cv.prot, writeKeys kb .server, sv.prot, resumed, cfinSpec, sfinSpec,
     Model.KeySchedule.clientSum sm S master trC, Model.KeySchedule.serverSum sm S master trS⟩, soft)
 
 def judgeHS (ct ot : List String) : Option Verdict := do
@@ -418,21 +446,122 @@ def judgeRX (ct ot : List String) : Option Verdict := do
           let field := (kv ct "field").getD "?"
           let path := (kv ct "path").getD "?"
           let delivered := if og == "-" then [] else og.splitOn ","
+          -- `pad…` fields: a CBC record sealed by the Lean side under the sender's keys with long
+          -- padding (legal, or with damaged padding bytes); the other fields: a genuine record with
+          -- one header field rewritten
+          let what := if field.startsWith "pad" then s!"a CBC record with long padding ('{field}': padding bytes damaged)"
+            else s!"a record whose header field '{field}' was rewritten"
           -- the rewritten record is a copy of the held-back B (or of an older record): its content
           -- coming out first, or anything not sent at all, means the forgery was accepted
           if specOpen.isNone && (delivered.any (fun x => !(sg.map hex).contains x) || (st == .dtlcp && delivered.head? == some (hex b))) then
-            some ("rx-accept", s!"{path}: a record whose header field '{field}' was rewritten does not authenticate under the standard but its content was delivered")
+            some ("rx-accept", s!"{path}: {what} does not authenticate under the standard but its content was delivered")
           else if specOpen.isNone then
-            some ("rx-state", s!"{path}: after a rejected record with rewritten '{field}' the genuine records were not all delivered (got {delivered.length} of {sg.length}, end={oe}): the forgery changed receiver state")
+            some ("rx-state", s!"{path}: after rejecting {what} the genuine records were not all delivered (got {delivered.length} of {sg.length}, end={oe}): the forgery changed receiver state")
+          else if field.startsWith "pad" && !(delivered.contains (hex (specOpen.getD []))) then
+            some ("rx-reject", s!"{path}: a CBC record with {(kv ct "padlen").getD "?"} bytes of well-formed padding ('{field}') is valid under the standard (padding may be up to 255 bytes) but was not delivered (end={oe})")
           else some ("rx-lost", s!"{path}: genuine records were not delivered as sent (end={oe})")
       pure { model := s!"got={hexList mg} end={me}", spec := spec, note := if specOpen.isSome then "rx-authentic" else "rx-forged" }
   | _, _ => pure { model := "got=? end=?", spec := some ("incomplete", "the connection for the receive-path test could not be set up") }
+
+/-! ### a failed transport write followed by another protected record (op=wf)
+
+case     : op=wf stack suite side pre cut at next seed        (configuration, re-executable)
+           master smaster pre c2s s2c sentc sents            (captured as for op=hs; the faulting
+           side's stream is what it HANDED to the transport, record by record)
+           fault=<offset>:<k>   of the record that starts at `offset` of the faulting side's stream
+                                only the first k bytes reached the wire, then the transport
+                                returned an error (k > header + explicit IV/nonce: at least one
+                                protected byte is out)
+observed : ok=1 werr=<1 if Write returned an error>
+           tail=<the failed record and everything after it, as handed to the transport>
+
+The standard's verdict is `check` itself, on the stream with the failed record in place: a record
+whose protected bytes reached the wire has used its sequence number and its nonce, so the records
+after it must open under the following numbers (DTLCP: carry them) and all explicit nonces / IVs of
+the direction must be pairwise distinct.  The model's prediction: `writeOneFailed` for the failed
+record, `writeOne` for those after it, on the same contents and IV bytes, each sealed under the
+number the model's own state dictates (`seqConsumedOnWriteError` from the regenerated facts). -/
+def judgeWF (ct ot : List String) : Option Verdict := do
+  let (mst, st) ← (kv ct "stack").bind parseStack
+  let suiteId ← kvNat ct "suite"
+  let side ← kv ct "side"
+  match kvHex ct "c2s", kvHex ct "s2c" with
+  | some c2s, some s2c =>
+    let master ← kvHex ct "master"
+    let smaster ← kvHex ct "smaster"
+    let sentc ← kvHex ct "sentc"
+    let sents ← kvHex ct "sents"
+    let (off, k) ← match ((kv ct "fault").getD "").splitOn ":" with
+      | [a, b] => do pure ((← a.toNat?), (← b.toNat?))
+      | _ => none
+    match basis st suiteId master smaster [] c2s s2c with
+    | .error f => pure { model := "ok=1 werr=1 tail=?", spec := some f }
+    | .ok bs =>
+      let S := Model.KeySchedule.srcOf mst
+      let mode := bs.sp.mode
+      let (keys, prot, wire) := if side == "client" then (writeKeys bs.kb .client, bs.cv.prot, c2s) else (writeKeys bs.kb .server, bs.sv.prot, s2c)
+      -- the protected records of the faulting direction with their offsets in its stream
+      let recs := (splitRecords st (wire.length + 1) wire []).toOption.getD []
+      let offs := (recs.foldl (fun (acc : List Nat × Nat) r => (acc.1 ++ [acc.2], acc.2 + r.raw.length)) ([], 0)).1
+      let isProt (r : WireRec) (i : Nat) : Bool := match st with
+        | .tlcp => (recs.take i).any (fun x => x.p.typ == 20)
+        | .dtlcp => r.p.epoch != 0
+      let protOffs := ((recs.zip offs).zip (List.range recs.length)).filterMap fun ((r, o), i) => if isProt r i then some o else none
+      match protOffs.idxOf? off with
+      | none => pure { model := "ok=1 werr=1 tail=?", spec := some ("shape", s!"fault offset {off} is not the start of a protected record of the {side}") }
+      | some f =>
+        let tailRecs := prot.drop f
+        let enl := match mode with | .cbc => 16 | .gcm => 8
+        let flen := ((tailRecs.head?).map (·.2.raw.length)).getD 0
+        let epoch := match st with | .tlcp => 0 | .dtlcp => 1
+        let ciph : Model.KeySchedule.Cipher := match mode with
+          | .gcm => .aead ⟨[], keys.key, keys.iv⟩
+          | .cbc => .cbc ⟨keys.mac, keys.key, keys.iv⟩
+        -- the write side as the records before the failed one left it (f records sealed since the CCS)
+        let w0 : Model.KeySchedule.WriteSide := ⟨⟨some ciph, none, be 8 f⟩, epoch, f⟩
+        -- The model's prediction, record by record: the content is what the record opens to under
+        -- the number THE MODEL seals the next record with (`nextSealSeq` of its current state); the
+        -- model then seals that content (same IV bytes) with the transport's answer for this record.
+        let rec go (fuel : Nat) (w : Model.KeySchedule.WriteSide) (rs : List (Nat × WireRec)) (acc : Bytes) : Option Bytes :=
+          match fuel, rs with
+          | _, [] => some acc
+          | 0, _ => none
+          | fuel+1, (i, r) :: rest =>
+            let sq := Model.KeySchedule.nextSealSeq mst w
+            let (e, n) := match st with
+              | .tlcp => (0, fromBE sq)
+              | .dtlcp => (fromBE (sq.take 2), fromBE (sq.drop 2))
+            match openBody sm mode keys st r.p.typ r.p.ver e n r.p.body with
+            | .error _ => none
+            | .ok content =>
+              match Model.KeySchedule.writeOneT sm S mst w r.p.typ 0x0101 content (explicitPart mode r.p.body) (i != f) with
+              | .ok (rec, w') => go fuel w' rest (acc ++ rec)
+              | _ => none
+        let modelTail : String := match go (tailRecs.length + 1) w0 tailRecs [] with
+          | some b => hex b
+          | none => "?"
+        -- the standard's verdict: the whole capture, the failed record in its place
+        let spec : Option Fail :=
+          match check mst st suiteId master smaster [] c2s s2c sentc sents [] [] none none (appPrefix := true) with
+          | .error e => some e
+          | .ok _ =>
+            if k ≤ headerLen st + enl || k > flen then
+              some ("shape", s!"fault after {k} of {flen} bytes: no protected byte of the record reached the wire (not a case of this check)")
+            else if (kv ot "werr") != some "1" then
+              some ("shape", "the transport write failed but Write reported success")
+            else if tailRecs.length < 2 then
+              some ("shape", "no protected record followed the failed one (the case exercises nothing)")
+            else none
+        pure { model := s!"ok=1 werr=1 tail={modelTail}", spec := spec,
+               note := s!"wf-{(kv ct "next").getD "?"}-{if k == flen then "full" else "partial"}" }
+  | _, _ => pure { model := "ok=1 werr=1 tail=?", spec := some ("incomplete", "the connection for the write-fault test could not be set up") }
 
 def judge (c o : String) : Option Verdict :=
   let ct := tokens c
   let ot := tokens o
   if kv ct "op" == some "hs" then judgeHS ct ot
   else if kv ct "op" == some "rx" then judgeRX ct ot
+  else if kv ct "op" == some "wf" then judgeWF ct ot
   else judgePrim ct ot
 
 end Gotlcp.Oracle.C04HS
